@@ -405,5 +405,528 @@ theorem sigmoid_backprop (bm : BMode) (H : Heap ℝ) (x : Nat) (hR : Reach bm H)
   rw [List.map_map, C14.zipWith_map_left]
   simp [List.zipWith_self]
 
+/-! ## Relu -/
+
+theorem hCmp_id {c : Cmp} {a b : Nat} {H H' : Heap ℝ} {r : Nat} (h : hCmp c a b H = .ok (r, H')) :
+    r = H.size := (hCmp_val h).2.1
+
+/-- the Relu graph with identities: `z = N`, `r = N + 1` -/
+theorem relu_full (bm : BMode) (H : Heap ℝ) (x : Nat) (hR : Reach bm H) (hwf : (H.val x).WF) (l : Live H x) :
+    ∃ r H', actForward Activation.relu [some x] H = .ok (r, H') ∧ Extends H H' ∧ Reach bm H' ∧
+      r = H.size + 1 ∧ H'.val x = H.val x ∧
+      H'.val H.size = (H.val x).map (fun a => 0 * a) ∧
+      H'.val r = (H.val x).map (fun a => max 0 a) ∧
+      H'.ctx H.size = liveCtx [⟨x, .scaleX 0⟩] ∧
+      H'.ctx (H.size + 1) = liveCtx [⟨H.size, .elext (H.size + 1) H.size x⟩, ⟨x, .elext (H.size + 1) x H.size⟩] := by
+  obtain ⟨r, H', hrun, hext, hval⟩ := C14.relu_value H x l.1 hwf
+  have h := hrun
+  unfold actForward at h
+  rw [bind_run (show (liftOut (oneInput [some x]) : HM ℝ Nat) H = .ok (x, H) from rfl)] at h
+  simp only [] at h
+  obtain ⟨z, H1, g1, g2⟩ := bind_ok h
+  obtain ⟨vz, e1, cz, lz⟩ := hScale_live g1 l
+  obtain ⟨iz, s1⟩ := hScale_id g1
+  have lx1 : Live H1 x := l.ext e1
+  obtain ⟨vr, e2, cr, lr⟩ := hCmp_ext_live (Or.inl rfl) g2 lz lx1
+  have ir := hCmp_id g2
+  have R1 : Reach bm H1 := Reach.scale hR l.1 g1
+  have R2 : Reach bm H' := Reach.cmp R1 lz.1 lx1.1 g2
+  have er : r = H.size + 1 := by omega
+  subst iz
+  refine ⟨r, H', hrun, hext, R2, er, hext.val l.1, ?_, ?_, ?_, ?_⟩
+  · rw [e2.val lz.1, vz]; simp [vScale, Tensor.map]
+  · rw [hval]; rfl
+  · rw [e2.ctx lz.1, cz, zero_eq]
+  · rw [← er, cr]
+
+/-- **Relu, end to end**: after `Relu.Forward(x)` and a successful `BackPropagate` of the result, `x.Gradient()` is
+    `relu'(x)` element by element — 1 above the tie band, 0 below, ½ inside (`C15.reluD_cases`) — whatever `x` was computed from -/
+theorem relu_backprop (bm : BMode) (H : Heap ℝ) (x : Nat) (hR : Reach bm H) (hwf : (H.val x).WF) (l : Live H x)
+    (hgx : H.grad x = none) :
+    ∃ r H', actForward Activation.relu [some x] H = .ok (r, H') ∧ H'.val r = (H.val x).map (fun a => max 0 a) ∧
+      ((backprop bm H' r).status = .ok () →
+        (backprop bm H' r).heap.grad x = some ⟨(H.val x).dims, (H.val x).data.map C15.reluD⟩) := by
+  obtain ⟨r, H', hrun, hext, hR', er, vx, vz, vr, c0, c1⟩ := relu_full bm H x hR hwf l
+  refine ⟨r, H', hrun, vr, ?_⟩
+  intro hok
+  subst er
+  have hdag := reach_dag hR'
+  have hxN : x < H.size := l.1
+  obtain ⟨g1, t1, e1⟩ := liveCtx_grad H' _ _ c1
+  obtain ⟨g0, t0, e0⟩ := liveCtx_grad H' _ _ c0
+  have tx : H'.tracked x = true := by have := l.2.1; simp only [Heap.tracked, hext.ctx hxN] at this ⊢; exact this
+  have gx : H'.grad x = none := by simp only [Heap.grad, hext.ctx hxN] at hgx ⊢; exact hgx
+  obtain ⟨hroot, hcl, _, hnd⟩ := backwardOrder_spec H' (H.size + 1) hdag t1
+  have hM : ∀ v ∈ backwardOrder H' (H.size + 1), v = H.size + 1 ∨ v = H.size ∨ v ≤ x := by
+    apply order_subset H' (H.size + 1)
+    · left; rfl
+    · intro u hu v hv
+      obtain ⟨e, he, rfl⟩ := mem_succs_edge H' u v hv
+      rcases hu with rfl | rfl | hle
+      · rw [e1] at he; simp at he; rcases he with rfl | rfl <;> simp
+      · rw [e0] at he; simp at he; subst he; simp
+      · have := hdag u e he
+        right; right; omega
+  have m1 := hroot
+  have m0 : H.size ∈ backwardOrder H' (H.size + 1) := by
+    apply hcl (H.size + 1) m1
+    unfold succs
+    exact List.mem_filter.mpr ⟨List.mem_map.mpr ⟨⟨H.size, .elext (H.size + 1) H.size x⟩, by rw [e1]; simp, rfl⟩, t0⟩
+  let H1 := markDirty H' (backwardOrder H' (H.size + 1))
+  have hv1 : ∀ n, H1.val n = H'.val n := fun n => markDirty_val _ _ n
+  let X := H.val x
+  let G : Tensor ℝ := vPow (X.map (fun a => max 0 a)) Scalar.zero
+  have sG : Shaped X.dims G := ones_shaped (X.map (fun a => max 0 a)) (map_wf _ _ hwf)
+  have wG : G.WF := sG.1
+  have hd : G.dims = X.dims := sG.2
+  have shp : ∀ φ, Shaped X.dims (gz G X φ) := fun φ => ⟨gz_wf G X φ hwf wG hd, hd⟩
+  have hX : H1.val x = X.map id := by rw [hv1, vx]; simp [Tensor.map, X]
+  have hZ : H1.val H.size = X.map (fun a => 0 * a) := by rw [hv1, vz]
+  have hRv : H1.val (H.size + 1) = X.map (fun a => max 0 a) := by rw [hv1, vr]
+  have f1 : (backprop bm H' (H.size + 1)).heap.grad (H.size + 1) = some (gz G X (fun _ => 1)) := by
+    rw [gz_one G X hwf wG hd]
+    have := grad_root bm H' (H.size + 1) hdag t1 hok g1 (by rw [vr]; exact map_wf _ _ hwf)
+    rw [vr] at this
+    exact this
+  -- z receives the ElMax rule towards its first operand
+  have f0 := grad_single bm H' (H.size + 1) hdag t1 hok H.size (H.size + 1) m1 (by omega) g0 t0
+    (.elext (H.size + 1) H.size x) (by rw [e1]; simp [List.filter_cons, show ¬ x = H.size by omega])
+    (by
+      intro v hv hne
+      rcases hM v hv with rfl | rfl | hle
+      · exact absurd rfl hne
+      · edge_ne c0
+      · intro e he; have := hdag v e he; omega)
+    (gz G X (fun _ => 1)) _ f1
+    (r_elext bm H1 G X (fun _ => 1) hwf wG hd (H.size + 1) H.size x (fun a => max 0 a) (fun a => 0 * a) id hRv hZ hX)
+    X.dims (shp _)
+  -- x: from r directly, and from z through Scale(0)
+  have fx := grad_two bm H' (H.size + 1) hdag t1 hok x (H.size + 1) H.size m1 m0 (by omega) (by omega) gx tx
+    (.elext (H.size + 1) x H.size) (.scaleX 0)
+    (by rw [e1]; simp [List.filter_cons, show ¬ H.size = x by omega]) (by rw [e0]; simp)
+    (by
+      intro v hv hn1 hn0
+      rcases hM v hv with rfl | rfl | hle
+      · exact absurd rfl hn1
+      · exact absurd rfl hn0
+      · intro e he; have := hdag v e he; omega)
+    (gz G X (fun _ => 1)) _ _ _ _ f1 f0
+    (r_elext bm H1 G X (fun _ => 1) hwf wG hd (H.size + 1) x H.size (fun a => max 0 a) id (fun a => 0 * a) hRv hX hZ)
+    (r_scale bm H1 G X _ 0) X.dims (shp _) (shp _)
+    (gz_add G X _ _ hwf wG hd)
+  rw [fx]
+  congr 1
+  -- G is all ones; the tie-aware coefficient is reluD
+  simp only [gz, G, vPow, Tensor.map, X]
+  congr 1
+  rw [List.map_map, C14.zipWith_map_left]
+  simp only [List.zipWith_self, Function.comp]
+  apply List.map_congr_left
+  intro a _
+  simp only [C15.reluD, id]
+  ring_nf
+  simp
+
+/-! ## Tanh -/
+
+/-- **Tanh, end to end**: `x.Gradient()` after `Tanh.Forward(x)` and a successful `BackPropagate` is `cosh(x)⁻² = 1 − tanh²(x)` -/
+theorem tanh_backprop (bm : BMode) (H : Heap ℝ) (x : Nat) (hR : Reach bm H) (hwf : (H.val x).WF) (l : Live H x)
+    (hgx : H.grad x = none) :
+    ∃ r H', actForward Activation.tanh [some x] H = .ok (r, H') ∧ H'.val r = (H.val x).map Real.tanh ∧
+      ((backprop bm H' r).status = .ok () →
+        (backprop bm H' r).heap.grad x = some ⟨(H.val x).dims, (H.val x).data.map (fun a => (Real.cosh a) ^ (-2 : ℝ))⟩) := by
+  obtain ⟨r, H', hrun, hext, hval⟩ := C14.tanh_value H x
+  have h := hrun
+  unfold actForward at h
+  rw [bind_run (show (liftOut (oneInput [some x]) : HM ℝ Nat) H = .ok (x, H) from rfl)] at h
+  simp only [] at h
+  obtain ⟨vr, e1, cr, lr⟩ := hUnary_live h l
+  obtain ⟨ir, s1⟩ := hUnary_id h
+  have hR' : Reach bm H' := Reach.unary hR l.1 h
+  have vr' : H'.val r = (H.val x).map Real.tanh := by rw [hval]; rfl
+  refine ⟨r, H', hrun, vr', ?_⟩
+  intro hok
+  subst ir
+  have hdag := reach_dag hR'
+  have hxN : x < H.size := l.1
+  have cr' : H'.ctx H.size = liveCtx [⟨x, .tanhX x⟩] := cr
+  obtain ⟨g0, t0, e0⟩ := liveCtx_grad H' _ _ cr'
+  have tx : H'.tracked x = true := by have := l.2.1; simp only [Heap.tracked, hext.ctx hxN] at this ⊢; exact this
+  have gx : H'.grad x = none := by simp only [Heap.grad, hext.ctx hxN] at hgx ⊢; exact hgx
+  obtain ⟨hroot, hcl, _, hnd⟩ := backwardOrder_spec H' H.size hdag t0
+  have hM : ∀ v ∈ backwardOrder H' H.size, v = H.size ∨ v ≤ x := by
+    apply order_subset H' H.size
+    · left; rfl
+    · intro u hu v hv
+      obtain ⟨e, he, rfl⟩ := mem_succs_edge H' u v hv
+      rcases hu with rfl | hle
+      · rw [e0] at he; simp at he; subst he; simp
+      · have := hdag u e he
+        right; omega
+  let H1 := markDirty H' (backwardOrder H' H.size)
+  have hv1 : ∀ n, H1.val n = H'.val n := fun n => markDirty_val _ _ n
+  let X := H.val x
+  let G : Tensor ℝ := vPow (X.map Real.tanh) Scalar.zero
+  have sG : Shaped X.dims G := ones_shaped (X.map Real.tanh) (map_wf _ _ hwf)
+  have wX1 : (H1.val x).WF := by rw [hv1, hext.val hxN]; exact hwf
+  have hd1 : G.dims = (H1.val x).dims := by rw [hv1, hext.val hxN]; exact sG.2
+  have f0 : (backprop bm H' H.size).heap.grad H.size = some G := by
+    have := grad_root bm H' H.size hdag t0 hok g0 (by rw [vr']; exact map_wf _ _ hwf)
+    rw [vr'] at this
+    exact this
+  have fx := grad_single bm H' H.size hdag t0 hok x H.size hroot (by omega) gx tx (.tanhX x) (by rw [e0]; simp)
+    (by
+      intro v hv hne
+      rcases hM v hv with rfl | hle
+      · exact absurd rfl hne
+      · intro e he; have := hdag v e he; omega)
+    G _ f0 (C15.tanh_local_vjp bm H1 x G wX1 sG.1 hd1).1 X.dims
+    ⟨⟨by
+        have hl : G.data.length = (H1.val x).data.length := by rw [sG.1.1, wX1.1, hd1]
+        simp only [List.length_zipWith, hl, Nat.min_self]; rw [← hl]; exact sG.1.1, sG.1.2⟩, sG.2⟩
+  rw [fx]
+  congr 1
+  rw [hv1, hext.val hxN]
+  simp only [G, vPow, Tensor.map, X]
+  congr 1
+  rw [List.map_map, C14.zipWith_map_left]
+  simp [List.zipWith_self]
+
+/-! ## LeakyRelu -/
+
+/-- the LeakyRelu graph with identities: `z = N`, `s1 = N+1`, `s2 = N+2`, `s3 = N+3`, `s1' = N+4`, `s3' = N+5`, `r = N+6` -/
+theorem leaky_full (bm : BMode) (m : ℝ) (H : Heap ℝ) (x : Nat) (hR : Reach bm H) (hwf : (H.val x).WF) (l : Live H x) :
+    ∃ r H', actForward (Activation.leaky m) [some x] H = .ok (r, H') ∧ Extends H H' ∧ Reach bm H' ∧
+      r = H.size + 6 ∧ H'.val x = H.val x ∧
+      H'.val H.size = (H.val x).map (fun a => 0 * a) ∧
+      H'.val (H.size + 1) = (H.val x).map (fun a => max 0 a) ∧ H'.val (H.size + 2) = (H.val x).map (fun a => min 0 a) ∧
+      H'.val (H.size + 4) = H'.val (H.size + 1) ∧ H'.val (H.size + 5) = H'.val (H.size + 3) ∧
+      H'.val r = (H.val x).map (fun a => max 0 a + m * min 0 a) ∧
+      H'.ctx H.size = liveCtx [⟨x, .scaleX 0⟩] ∧
+      H'.ctx (H.size + 1) = liveCtx [⟨H.size, .elext (H.size + 1) H.size x⟩, ⟨x, .elext (H.size + 1) x H.size⟩] ∧
+      H'.ctx (H.size + 2) = liveCtx [⟨H.size, .elext (H.size + 2) H.size x⟩, ⟨x, .elext (H.size + 2) x H.size⟩] ∧
+      H'.ctx (H.size + 3) = liveCtx [⟨H.size + 2, .scaleX m⟩] ∧
+      H'.ctx (H.size + 4) = liveCtx [⟨H.size + 1, .bcastX (H.size + 1) (H.size + 4)⟩] ∧
+      H'.ctx (H.size + 5) = liveCtx [⟨H.size + 3, .bcastX (H.size + 3) (H.size + 5)⟩] ∧
+      H'.ctx (H.size + 6) = liveCtx [⟨H.size + 4, .idG⟩, ⟨H.size + 5, .idG⟩] := by
+  obtain ⟨r, H', hrun, hext, hval⟩ := C14.leaky_value m H x l.1 hwf
+  have h := hrun
+  unfold actForward at h
+  rw [bind_run (show (liftOut (oneInput [some x]) : HM ℝ Nat) H = .ok (x, H) from rfl)] at h
+  simp only [] at h
+  obtain ⟨z, H1, g1, h⟩ := bind_ok h
+  obtain ⟨vz, e1, cz, lz⟩ := hScale_live g1 l
+  obtain ⟨iz, sz1⟩ := hScale_id g1
+  have lx1 : Live H1 x := l.ext e1
+  obtain ⟨s1, H2, g2, h⟩ := bind_ok h
+  obtain ⟨vs1, e2, cs1, ls1⟩ := hCmp_ext_live (Or.inl rfl) g2 lz lx1
+  have is1 := hCmp_id g2
+  obtain ⟨s2, H3, g3, h⟩ := bind_ok h
+  obtain ⟨vs2, e3, cs2, ls2⟩ := hCmp_ext_live (Or.inr rfl) g3 (lz.ext e2) (lx1.ext e2)
+  have is2 := hCmp_id g3
+  obtain ⟨s3, H4, g4, g5⟩ := bind_ok h
+  obtain ⟨vs3, e4, cs3, ls3⟩ := hScale_live g4 ls2
+  obtain ⟨is3, sz4⟩ := hScale_id g4
+  have ls14 : Live H4 s1 := (ls1.ext e3).ext e4
+  obtain ⟨s1', s3', is1', is3', ir, sz5, e5, vs1', vs3', vr, cs1', cs3', cr, ls1', ls3', lr⟩ := hArith_live_id g5 ls14 ls3
+  -- sizes
+  have sz2 : H2.size = H1.size + 1 := by
+    have := ls1.1; have h2 := e2.1; have := hCmp_id g2
+    unfold hCmp at g2
+    obtain ⟨H0, H1', h1, h2'⟩ := bind_ok g2
+    obtain ⟨ea, eb⟩ := getHeap_ok h1
+    rw [ea, eb] at h2'
+    obtain ⟨t, H2', h3, h4⟩ := bind_ok h2'
+    obtain ⟨_, e2'⟩ := liftOut_ok h3
+    rw [e2'] at h4
+    exact alloc_grows h4
+  have sz3 : H3.size = H2.size + 1 := by
+    unfold hCmp at g3
+    obtain ⟨H0, H1', h1, h2'⟩ := bind_ok g3
+    obtain ⟨ea, eb⟩ := getHeap_ok h1
+    rw [ea, eb] at h2'
+    obtain ⟨t, H2', h3, h4⟩ := bind_ok h2'
+    obtain ⟨_, e2'⟩ := liftOut_ok h3
+    rw [e2'] at h4
+    exact alloc_grows h4
+  have R1 : Reach bm H1 := Reach.scale hR l.1 g1
+  have R2 : Reach bm H2 := Reach.cmp R1 lz.1 lx1.1 g2
+  have R3 : Reach bm H3 := Reach.cmp R2 (lz.ext e2).1 (lx1.ext e2).1 g3
+  have R4 : Reach bm H4 := Reach.scale R3 ls2.1 g4
+  have R5 : Reach bm H' := Reach.arith R4 ls14.1 ls3.1 g5
+  have ez : z = H.size := iz
+  have es1 : s1 = H.size + 1 := by omega
+  have es2 : s2 = H.size + 2 := by omega
+  have es3 : s3 = H.size + 3 := by omega
+  have es1' : s1' = H.size + 4 := by omega
+  have es3' : s3' = H.size + 5 := by omega
+  have er : r = H.size + 6 := by omega
+  -- values (as in `C15x.leaky_graph`)
+  have hx1 : H1.val x = H.val x := e1.val l.1
+  have hz1 : H1.val z = (H.val x).map (fun a => 0 * a) := by rw [vz]; simp [vScale, Tensor.map]
+  have wz : (H1.val z).WF := by rw [hz1]; exact map_wf _ _ hwf
+  have wx : (H1.val x).WF := by rw [hx1]; exact hwf
+  have hdzx : (H1.val z).dims = (H1.val x).dims := by rw [hz1, hx1]; rfl
+  rw [vCmp_same .elmax _ _ wz wx hdzx] at vs1
+  rw [e2.val lz.1, e2.val lx1.1, vCmp_same .elmin _ _ wz wx hdzx] at vs2
+  injection vs1 with vs1
+  injection vs2 with vs2
+  have hs1 : H2.val s1 = (H.val x).map (fun a => max 0 a) := by
+    rw [← vs1, hz1, hx1]
+    simp only [Tensor.map, Cmp.fn, C14.zipWith_map_left]
+    congr 1
+    apply List.map_congr_left
+    intro a _; simp
+  have hs2 : H3.val s2 = (H.val x).map (fun a => min 0 a) := by
+    rw [← vs2, hz1, hx1]
+    simp only [Tensor.map, Cmp.fn, C14.zipWith_map_left]
+    congr 1
+    apply List.map_congr_left
+    intro a _; simp
+  have hs14 : H4.val s1 = (H.val x).map (fun a => max 0 a) := by rw [(e3.trans e4).val ls1.1, hs1]
+  have hs34 : H4.val s3 = (H.val x).map (fun a => m * min 0 a) := by
+    rw [vs3, hs2]; simp only [vScale, Tensor.map, List.map_map]; rfl
+  have w1 : (H4.val s1).WF := by rw [hs14]; exact map_wf _ _ hwf
+  have w3 : (H4.val s3).WF := by rw [hs34]; exact map_wf _ _ hwf
+  have hdd : (H4.val s1).dims = (H4.val s3).dims := by rw [hs14, hs34]; rfl
+  rw [← hdd, targetBroadcastDims_self, vBroadcastN_self _ w1] at vs1'
+  rw [← hdd, targetBroadcastDims_self, hdd, vBroadcastN_self _ w3] at vs3'
+  injection vs1' with vs1'
+  injection vs3' with vs3'
+  subst ez es1 es2 es3 es1' es3'
+  refine ⟨r, H', hrun, hext, R5, er, hext.val l.1, ?_, ?_, ?_, ?_, ?_, ?_, ?_, ?_, ?_, ?_, ?_, ?_, ?_⟩
+  · rw [(((e2.trans e3).trans e4).trans e5).val lz.1, hz1]
+  · rw [e5.val ls14.1, hs14]
+  · rw [(e4.trans e5).val ls2.1, hs2]
+  · rw [e5.val ls14.1, vs1']
+  · rw [e5.val ls3.1, vs3']
+  · rw [hval]; rfl
+  · rw [(((e2.trans e3).trans e4).trans e5).ctx lz.1, cz, zero_eq]
+  · rw [((e3.trans e4).trans e5).ctx ls1.1, cs1]
+  · rw [(e4.trans e5).ctx ls2.1, cs2]
+  · rw [e5.ctx ls3.1, cs3]
+  · exact cs1'
+  · exact cs3'
+  · rw [← er, cr]; rfl
+
+/-- **LeakyRelu, end to end**: `x.Gradient()` after `LeakyRelu.Forward(x)` and a successful `BackPropagate` is `leakyD m x`
+    element by element: 1 above the tie band, `m` below, `(1+m)/2` inside (`C15x.leakyD_cases`) -/
+theorem leaky_backprop (bm : BMode) (m : ℝ) (H : Heap ℝ) (x : Nat) (hR : Reach bm H) (hwf : (H.val x).WF) (l : Live H x)
+    (hgx : H.grad x = none) :
+    ∃ r H', actForward (Activation.leaky m) [some x] H = .ok (r, H') ∧
+      H'.val r = (H.val x).map (fun a => max 0 a + m * min 0 a) ∧
+      ((backprop bm H' r).status = .ok () →
+        (backprop bm H' r).heap.grad x = some ⟨(H.val x).dims, (H.val x).data.map (leakyD m)⟩) := by
+  obtain ⟨r, H', hrun, hext, hR', er, vx, vz, vs1, vs2, vs1', vs3', vr, c0, c1, c2, c3, c4, c5, c6⟩ :=
+    leaky_full bm m H x hR hwf l
+  refine ⟨r, H', hrun, vr, ?_⟩
+  intro hok
+  subst er
+  have hdag := reach_dag hR'
+  have hxN : x < H.size := l.1
+  obtain ⟨g6, t6, e6⟩ := liveCtx_grad H' _ _ c6
+  obtain ⟨g5, t5, e5⟩ := liveCtx_grad H' _ _ c5
+  obtain ⟨g4, t4, e4⟩ := liveCtx_grad H' _ _ c4
+  obtain ⟨g3, t3, e3⟩ := liveCtx_grad H' _ _ c3
+  obtain ⟨g2, t2, e2⟩ := liveCtx_grad H' _ _ c2
+  obtain ⟨g1, t1, e1⟩ := liveCtx_grad H' _ _ c1
+  obtain ⟨g0, t0, e0⟩ := liveCtx_grad H' _ _ c0
+  have tx : H'.tracked x = true := by have := l.2.1; simp only [Heap.tracked, hext.ctx hxN] at this ⊢; exact this
+  have gx : H'.grad x = none := by simp only [Heap.grad, hext.ctx hxN] at hgx ⊢; exact hgx
+  obtain ⟨hroot, hcl, _, hnd⟩ := backwardOrder_spec H' (H.size + 6) hdag t6
+  have hM : ∀ v ∈ backwardOrder H' (H.size + 6), v = H.size + 6 ∨ v = H.size + 5 ∨ v = H.size + 4 ∨ v = H.size + 3 ∨
+      v = H.size + 2 ∨ v = H.size + 1 ∨ v = H.size ∨ v ≤ x := by
+    apply order_subset H' (H.size + 6)
+    · left; rfl
+    · intro u hu v hv
+      obtain ⟨e, he, rfl⟩ := mem_succs_edge H' u v hv
+      rcases hu with rfl | rfl | rfl | rfl | rfl | rfl | rfl | hle
+      · rw [e6] at he; simp at he; rcases he with rfl | rfl <;> simp
+      · rw [e5] at he; simp at he; subst he; simp
+      · rw [e4] at he; simp at he; subst he; simp
+      · rw [e3] at he; simp at he; subst he; simp
+      · rw [e2] at he; simp at he; rcases he with rfl | rfl <;> simp
+      · rw [e1] at he; simp at he; rcases he with rfl | rfl <;> simp
+      · rw [e0] at he; simp at he; subst he; simp
+      · have := hdag u e he
+        right; right; right; right; right; right; right; omega
+  have mem_of (u v : Nat) (hu : u ∈ backwardOrder H' (H.size + 6)) (r' : Rule ℝ) (he : (⟨v, r'⟩ : Edge ℝ) ∈ (H'.ctx u).edges)
+      (hv : H'.tracked v = true) : v ∈ backwardOrder H' (H.size + 6) := by
+    apply hcl u hu
+    unfold succs
+    exact List.mem_filter.mpr ⟨List.mem_map.mpr ⟨⟨v, r'⟩, he, rfl⟩, hv⟩
+  have m6 := hroot
+  have m4 := mem_of _ (H.size + 4) m6 .idG (by rw [e6]; simp) t4
+  have m5 := mem_of _ (H.size + 5) m6 .idG (by rw [e6]; simp) t5
+  have m1 := mem_of _ (H.size + 1) m4 (.bcastX (H.size + 1) (H.size + 4)) (by rw [e4]; simp) t1
+  have m3 := mem_of _ (H.size + 3) m5 (.bcastX (H.size + 3) (H.size + 5)) (by rw [e5]; simp) t3
+  have m2 := mem_of _ (H.size + 2) m3 (.scaleX m) (by rw [e3]; simp) t2
+  have m0 := mem_of _ H.size m2 (.elext (H.size + 2) H.size x) (by rw [e2]; simp) t0
+  let H1 := markDirty H' (backwardOrder H' (H.size + 6))
+  have hv1 : ∀ n, H1.val n = H'.val n := fun n => markDirty_val _ _ n
+  let X := H.val x
+  let G : Tensor ℝ := vPow (X.map (fun a => max 0 a + m * min 0 a)) Scalar.zero
+  have sG : Shaped X.dims G := ones_shaped (X.map (fun a => max 0 a + m * min 0 a)) (map_wf _ _ hwf)
+  have wG : G.WF := sG.1
+  have hd : G.dims = X.dims := sG.2
+  have shp : ∀ φ, Shaped X.dims (gz G X φ) := fun φ => ⟨gz_wf G X φ hwf wG hd, hd⟩
+  have hX : H1.val x = X.map id := by rw [hv1, vx]; simp [Tensor.map, X]
+  have hZ : H1.val H.size = X.map (fun a => 0 * a) := by rw [hv1, vz]
+  have hS1 : H1.val (H.size + 1) = X.map (fun a => max 0 a) := by rw [hv1, vs1]
+  have hS2 : H1.val (H.size + 2) = X.map (fun a => min 0 a) := by rw [hv1, vs2]
+  have one : gz G X (fun _ => 1) = G := gz_one G X hwf wG hd
+  have f6 : (backprop bm H' (H.size + 6)).heap.grad (H.size + 6) = some (gz G X (fun _ => 1)) := by
+    rw [one]
+    have := grad_root bm H' (H.size + 6) hdag t6 hok g6 (by rw [vr]; exact map_wf _ _ hwf)
+    rw [vr] at this
+    exact this
+  have f4 : (backprop bm H' (H.size + 6)).heap.grad (H.size + 4) = some (gz G X (fun _ => 1)) := by
+    apply grad_single bm H' (H.size + 6) hdag t6 hok (H.size + 4) (H.size + 6) m6 (by omega) g4 t4 .idG
+      (by rw [e6]; simp) ?_ _ _ f6 (r_id bm H1 G X _) X.dims (shp _)
+    intro v hv hne
+    rcases hM v hv with rfl | rfl | rfl | rfl | rfl | rfl | rfl | hle
+    · exact absurd rfl hne
+    · edge_ne c5
+    · edge_ne c4
+    · edge_ne c3
+    · edge_ne c2
+    · edge_ne c1
+    · edge_ne c0
+    · intro e he; have := hdag v e he; omega
+  have f5 : (backprop bm H' (H.size + 6)).heap.grad (H.size + 5) = some (gz G X (fun _ => 1)) := by
+    apply grad_single bm H' (H.size + 6) hdag t6 hok (H.size + 5) (H.size + 6) m6 (by omega) g5 t5 .idG
+      (by rw [e6]; simp) ?_ _ _ f6 (r_id bm H1 G X _) X.dims (shp _)
+    intro v hv hne
+    rcases hM v hv with rfl | rfl | rfl | rfl | rfl | rfl | rfl | hle
+    · exact absurd rfl hne
+    · edge_ne c5
+    · edge_ne c4
+    · edge_ne c3
+    · edge_ne c2
+    · edge_ne c1
+    · edge_ne c0
+    · intro e he; have := hdag v e he; omega
+  have f1 : (backprop bm H' (H.size + 6)).heap.grad (H.size + 1) = some (gz G X (fun _ => 1)) := by
+    apply grad_single bm H' (H.size + 6) hdag t6 hok (H.size + 1) (H.size + 4) m4 (by omega) g1 t1
+      (.bcastX (H.size + 1) (H.size + 4)) (by rw [e4]; simp) ?_ _ _ f4
+      (r_bcast bm H1 _ (H.size + 1) (H.size + 4) (by rw [hv1, hv1, vs1'])) X.dims (shp _)
+    intro v hv hne
+    rcases hM v hv with rfl | rfl | rfl | rfl | rfl | rfl | rfl | hle
+    · edge_ne c6
+    · edge_ne c5
+    · exact absurd rfl hne
+    · edge_ne c3
+    · edge_ne c2
+    · edge_ne c1
+    · edge_ne c0
+    · intro e he; have := hdag v e he; omega
+  have f3 : (backprop bm H' (H.size + 6)).heap.grad (H.size + 3) = some (gz G X (fun _ => 1)) := by
+    apply grad_single bm H' (H.size + 6) hdag t6 hok (H.size + 3) (H.size + 5) m5 (by omega) g3 t3
+      (.bcastX (H.size + 3) (H.size + 5)) (by rw [e5]; simp) ?_ _ _ f5
+      (r_bcast bm H1 _ (H.size + 3) (H.size + 5) (by rw [hv1, hv1, vs3'])) X.dims (shp _)
+    intro v hv hne
+    rcases hM v hv with rfl | rfl | rfl | rfl | rfl | rfl | rfl | hle
+    · edge_ne c6
+    · exact absurd rfl hne
+    · edge_ne c4
+    · edge_ne c3
+    · edge_ne c2
+    · edge_ne c1
+    · edge_ne c0
+    · intro e he; have := hdag v e he; omega
+  have f2 : (backprop bm H' (H.size + 6)).heap.grad (H.size + 2) = some (gz G X (fun a => m * 1)) := by
+    apply grad_single bm H' (H.size + 6) hdag t6 hok (H.size + 2) (H.size + 3) m3 (by omega) g2 t2
+      (.scaleX m) (by rw [e3]; simp) ?_ _ _ f3 (r_scale bm H1 G X _ m) X.dims (shp _)
+    intro v hv hne
+    rcases hM v hv with rfl | rfl | rfl | rfl | rfl | rfl | rfl | hle
+    · edge_ne c6
+    · edge_ne c5
+    · edge_ne c4
+    · exact absurd rfl hne
+    · edge_ne c2
+    · edge_ne c1
+    · edge_ne c0
+    · intro e he; have := hdag v e he; omega
+  -- z: from ElMin and from ElMax
+  let nr : ℝ → ℝ → ℝ := fun u v => if Scalar.near u v then 1 else 0
+  let κ2z : ℝ → ℝ := fun a => (m * 1) * (nr (min 0 a) (0 * a) - (1 / 2) * nr (0 * a) (id a))
+  let κ2x : ℝ → ℝ := fun a => (m * 1) * (nr (min 0 a) (id a) - (1 / 2) * nr (id a) (0 * a))
+  let κ1z : ℝ → ℝ := fun a => 1 * (nr (max 0 a) (0 * a) - (1 / 2) * nr (0 * a) (id a))
+  let κ1x : ℝ → ℝ := fun a => 1 * (nr (max 0 a) (id a) - (1 / 2) * nr (id a) (0 * a))
+  have a1 : evalRule bm H1 (gz G X (fun a => m * 1)) (.elext (H.size + 2) H.size x) = .ok (gz G X κ2z) :=
+    r_elext bm H1 G X (fun a => m * 1) hwf wG hd (H.size + 2) H.size x _ _ _ hS2 hZ hX
+  have a2 : evalRule bm H1 (gz G X (fun a => m * 1)) (.elext (H.size + 2) x H.size) = .ok (gz G X κ2x) :=
+    r_elext bm H1 G X (fun a => m * 1) hwf wG hd (H.size + 2) x H.size _ _ _ hS2 hX hZ
+  have a3 : evalRule bm H1 (gz G X (fun _ => 1)) (.elext (H.size + 1) H.size x) = .ok (gz G X κ1z) :=
+    r_elext bm H1 G X (fun _ => 1) hwf wG hd (H.size + 1) H.size x _ _ _ hS1 hZ hX
+  have a4 : evalRule bm H1 (gz G X (fun _ => 1)) (.elext (H.size + 1) x H.size) = .ok (gz G X κ1x) :=
+    r_elext bm H1 G X (fun _ => 1) hwf wG hd (H.size + 1) x H.size _ _ _ hS1 hX hZ
+  have f0 : (backprop bm H' (H.size + 6)).heap.grad H.size = some (gz G X (fun a => κ2z a + κ1z a)) :=
+    grad_two bm H' (H.size + 6) hdag t6 hok H.size (H.size + 2) (H.size + 1) m2 m1 (by omega) (by omega) g0 t0
+      (.elext (H.size + 2) H.size x) (.elext (H.size + 1) H.size x)
+      (by rw [e2]; simp [List.filter_cons, show ¬ x = H.size by omega])
+      (by rw [e1]; simp [List.filter_cons, show ¬ x = H.size by omega])
+      (by
+        intro v hv hn2 hn1
+        rcases hM v hv with rfl | rfl | rfl | rfl | rfl | rfl | rfl | hle
+        · edge_ne c6
+        · edge_ne c5
+        · edge_ne c4
+        · edge_ne c3
+        · exact absurd rfl hn2
+        · exact absurd rfl hn1
+        · edge_ne c0
+        · intro e he; have := hdag v e he; omega)
+      _ _ _ _ _ f2 f1 a1 a3 X.dims (shp _) (shp _) (gz_add G X _ _ hwf wG hd)
+  -- x: three consumers
+  let κ3 : ℝ → ℝ := fun a => 0 * (κ2z a + κ1z a)
+  have a5 : evalRule bm H1 (gz G X (fun a => κ2z a + κ1z a)) (.scaleX 0) = .ok (gz G X κ3) := r_scale bm H1 G X _ 0
+  let cs : List Consumer :=
+    [⟨H.size + 2, .elext (H.size + 2) x H.size, gz G X (fun a => m * 1), gz G X κ2x⟩,
+     ⟨H.size + 1, .elext (H.size + 1) x H.size, gz G X (fun _ => 1), gz G X κ1x⟩,
+     ⟨H.size, .scaleX 0, gz G X (fun a => κ2z a + κ1z a), gz G X κ3⟩]
+  have s12 := shaped_add X.dims _ _ _ (shp κ2x) (shp κ1x) (gz_add G X κ2x κ1x hwf wG hd)
+  have s123 := shaped_add X.dims _ _ _ (shp (fun a => κ2x a + κ1x a)) (shp κ3) (gz_add G X (fun a => κ2x a + κ1x a) κ3 hwf wG hd)
+  have fx := grad_list bm H' (H.size + 6) hdag t6 hok x (by omega) gx tx cs (by simp [cs]) (by simp [cs]) X.dims
+    (by
+      intro c hc
+      simp only [cs, List.mem_cons, List.mem_singleton, List.not_mem_nil, or_false] at hc
+      rcases hc with rfl | rfl | rfl
+      · exact ⟨m2, by rw [e2]; simp [List.filter_cons, show ¬ H.size = x by omega], f2, a2, shp _⟩
+      · exact ⟨m1, by rw [e1]; simp [List.filter_cons, show ¬ H.size = x by omega], f1, a4, shp _⟩
+      · exact ⟨m0, by rw [e0]; simp, f0, a5, shp _⟩)
+    (by
+      intro v hv hnot
+      simp only [cs, List.map_cons, List.map_nil, List.mem_cons, List.mem_singleton, List.not_mem_nil, or_false, not_or] at hnot
+      rcases hM v hv with rfl | rfl | rfl | rfl | rfl | rfl | rfl | hle
+      · edge_ne c6
+      · edge_ne c5
+      · edge_ne c4
+      · edge_ne c3
+      · exact absurd rfl hnot.1
+      · exact absurd rfl hnot.2.1
+      · exact absurd rfl hnot.2.2
+      · intro e he; have := hdag v e he; omega)
+    (gz G X (fun a => (κ2x a + κ1x a) + κ3 a)) (shp _)
+    (by
+      intro t
+      rw [s123.2 t, s12.2 t]
+      simp [cs]
+      ring)
+  rw [fx]
+  congr 1
+  have hk : ∀ a, (κ2x a + κ1x a) + κ3 a = leakyD m a := by
+    intro a
+    simp only [κ2x, κ1x, κ3, κ2z, κ1z, nr, id, zero_mul, leakyD, C15.reluD, minD]
+    ring
+  rw [gz_congr G X _ _ hk]
+  simp only [gz, G, vPow, Tensor.map, X]
+  congr 1
+  rw [List.map_map, C14.zipWith_map_left]
+  simp only [List.zipWith_self, Function.comp]
+  apply List.map_congr_left
+  intro a _
+  simp
+
 end C15z
 end Qeep
